@@ -18,7 +18,13 @@ pub fn read_only_op(rng: &mut Rng, pool: usize) -> Op {
         8 => Op::GetStr(k),
         9 => Op::BulkGet((0..rng.below(12)).map(|_| rng.below(pool.max(1) as u64) as usize).collect()),
         10 | 11 => Op::Iter(rng.below(ITER_FLAVOURS.len() as u64) as usize, if rng.chance(1, 3) { rng.below(5) as usize } else { usize::MAX }),
-        12 => Op::Stats,
+        12 => {
+            if rng.chance(1, 2) {
+                Op::IterStep(rng.range(1, 6) as usize)
+            } else {
+                Op::Stats
+            }
+        }
         13 => Op::ReadFill,
         14 => rng.pick(&[Op::Flush, Op::SyncAll, Op::SyncData]).clone(),
         _ => rng.pick(&[Op::DbSyncAll, Op::DbSyncData, Op::BulkGetStr(vec![k])]).clone(),
@@ -47,15 +53,67 @@ fn c15_cycle<K: Kt>(_a: &Args, s: &mut Session<K>, h: &History, upto: usize, n_r
         return Some(ctx.classify(finding(&["C02"], "reopen", upto, e)));
     }
     let ro = History { kt: h.kt.clone(), cfg, keys: h.keys.clone(), ops: (0..n_ro).map(|_| read_only_op(rng, h.keys.len())).collect(), origin: "read-only session".into() };
-    let r = run_ops(s, &ro, 0, &mon, ctx);
+    // call by call: an observing monitor (iteration, statistics) does not stop a history for a finding that
+    // belongs to another property, so the foreign-findings counter is watched to learn which call went wrong
+    let mut r = crate::session::RunResult { stop: None, calls: 0 };
+    let mut bits = Rng::new(17);
+    for (j, op) in ro.ops.iter().enumerate() {
+        let before = ctx.counters.get("foreign_findings").copied().unwrap_or(0);
+        r.calls = j + 1;
+        // (odd call numbers: traversals are interleaved with other reads between their steps)
+        match s.apply(2 * j + 1, op, &ro.keys, &mon, ctx, bits.next()) {
+            Err(f) => {
+                r.stop = Some(ctx.classify(f));
+                break;
+            }
+            Ok(()) => {
+                if ctx.counters.get("foreign_findings").copied().unwrap_or(0) > before {
+                    let f = ctx.foreign.last().cloned().unwrap_or_else(|| finding(&["C04"], "iteration", j, "a read-only call answered wrongly".into()));
+                    r.stop = Some(Stop::Foreign(f));
+                    break;
+                }
+            }
+        }
+    }
     s.close();
     ctx.count("read_only_sessions", 1);
     ctx.count("read_only_calls", r.calls as u64);
     ctx.count(&format!("session_at_item_count.{}", if s.model.len() <= 16 { format!("{:02}", s.model.len()) } else { "17plus".into() }), 1);
     if let Some(st) = r.stop {
-        // a wrong answer of a read-only call belongs to another property; the file comparison still applies
         if matches!(st, Stop::Violation(_) | Stop::Harness(_)) {
             return Some(st);
+        }
+        // a read-only call answered wrongly. If the same call is right on a freshly opened map, the earlier
+        // read-only calls of this session changed what the map says: a side effect on the logical contents (C15).
+        // If it is wrong there as well it belongs to the property of that call (C01/C04/C14/C17), not to C15.
+        let failing = r.calls.saturating_sub(1);
+        if let (Stop::Foreign(f), Some(op)) = (&st, ro.ops.get(failing)) {
+            if !matches!(op, Op::IterStep(_)) && s.open(&cfg).is_ok() {
+                let single = History { kt: h.kt.clone(), cfg, keys: h.keys.clone(), ops: vec![op.clone()], origin: "replay of the failing read-only call".into() };
+                let mut scratch = Ctx::new("C15", &[], &ctx.replay_dir, "probe");
+                let again = run_ops(s, &single, 0, &mon, &mut scratch);
+                s.close();
+                if again.stop.is_none() {
+                    let mut hh = h.clone();
+                    hh.ops.truncate(upto);
+                    hh.ops.push(Op::Reopen(cfg));
+                    hh.ops.extend(ro.ops.iter().take(failing + 1).cloned());
+                    let f2 = finding(&["C15"], "side_effect", upto, format!("the read-only call `{}` answers correctly on a freshly opened map but wrongly after {} other read-only calls of the same session: {}", op.text(), failing, f.msg));
+                    let st2 = ctx.classify(f2);
+                    ctx.record_stop(st2, Some(&hh));
+                    return Some(Stop::Harness("stop".into()));
+                }
+            } else if let (Stop::Foreign(f), Some(Op::IterStep(_))) = (&st, ro.ops.get(failing)) {
+                // an iterator advanced across other read-only calls lost or repeated items: those calls disturbed it
+                let mut hh = h.clone();
+                hh.ops.truncate(upto);
+                hh.ops.push(Op::Reopen(cfg));
+                hh.ops.extend(ro.ops.iter().take(failing + 1).cloned());
+                let f2 = finding(&["C15", "C04"], "side_effect", upto, format!("a traversal interleaved with other read-only calls went wrong: {}", f.msg));
+                let st2 = ctx.classify(f2);
+                ctx.record_stop(st2, Some(&hh));
+                return Some(Stop::Harness("stop".into()));
+            }
         }
         ctx.record_stop(st, None);
     }
